@@ -1,5 +1,6 @@
 """property id -> harness modules that decide it."""
 REGISTRY = {
+    "C11": {"harnesses": ["harness.h11"], "level": "other"},
     "C15": {"harnesses": ["harness.h15"], "level": "other"},
     "C02": {"harnesses": ["harness.h02"], "level": "other"},
     "C09": {"harnesses": ["harness.h09"], "level": "other"},
